@@ -31,6 +31,7 @@ of a mutator makes of the registry contents `c` -/
 def Pub (env : Env) (c v : SigData) (res : Ret) : Prop :=
   (∃ op, plan env c op = (some v, res, false)) ∨
   (∃ chk sig tag prev, plan env c (.register chk sig tag) = (some ⟨c.signals, c.nextId + 1⟩, res, true) ∧
+      env.rejectsQuery sig = false ∧ env.rejectsSet sig = false ∧
       v = ⟨update sig { prev := prev, actions := [(c.nextId, tag)] } c.signals, c.nextId + 1⟩)
 
 /-- a first registration in progress: what it computed from the current contents -/
